@@ -2,8 +2,8 @@ open C09
 open Drv
 let rec nat_of_int n = if n <= 0 then O else S (nat_of_int (n - 1))
 let rec int_of_nat = function O -> 0 | S m -> 1 + int_of_nat m
-let pl_of_char = function 'I' -> I | 'X' -> X | 'Y' -> Y | 'Z' -> Z | c -> failwith (Printf.sprintf "badletter:%c" c)
-let char_of_pl = function I -> 'I' | X -> 'X' | Y -> 'Y' | Z -> 'Z'
+let pl_of_char = function 'I' -> PI | 'X' -> PX | 'Y' -> PY | 'Z' -> PZ | c -> failwith (Printf.sprintf "badletter:%c" c)
+let char_of_pl = function PI -> 'I' | PX -> 'X' | PY -> 'Y' | PZ -> 'Z'
 let pstr_of_string s = if s = "-" then [] else List.init (String.length s) (fun i -> pl_of_char s.[i])
 let string_of_pstr l = if l = [] then "-" else String.of_seq (List.to_seq (List.map char_of_pl l))
 let pstrs_of_string s = List.map pstr_of_string (split ',' s)
